@@ -286,7 +286,7 @@ Section Eval.
 
   Definition reval_atom (a : ratom) (e : env) : option bool :=
     match a with
-    | RAEq v o => Some (ostr_eqb (rget v e) (roget o e))
+    | RAEq v o => Some (eq_present (rget v e) (roget o e))
     | RAIn v l => Some (match rget v e with Some s => mem s l | None => false end)
     | RANotIn v l => Some (negb (match rget v e with Some s => mem s l | None => false end))
     | RARegex v src =>
